@@ -265,6 +265,9 @@ class OpsMixin(object):
                 return a(self)
             if hasattr(base.obj, "m_" + attr):
                 return BoundBuiltin(base, attr)
+            if attr in ("items", "keys", "values") and hasattr(base.obj, "iter_items") and hasattr(base.obj, "getitem"):
+                # Mapping mixin methods: derived from iteration and item access, as collections.abc.Mapping derives them
+                return PyObjV(_MappingView(base.obj, attr))
             self.err(node, "model object %r has no attribute %s" % (base.obj, attr))
         if isinstance(base, Phi):
             a = self.with_path(base.cond, True, lambda: self.getattr(base.a, attr, node))
@@ -412,6 +415,11 @@ class OpsMixin(object):
             k = idx.key()
             if k in base.items:
                 return base.items[k][1]
+            if getattr(base, "default_factory", None) is not None and isinstance(idx, (Const, Num)) \
+                    and all(isinstance(kk, (Const, Num)) for kk, _ in base.items.values()):
+                v = self.call(base.default_factory, [], {}, node)      # collections.defaultdict.__missing__
+                base.items[k] = (idx, v)
+                return v
             if isinstance(idx, (Const, Num)) and all(isinstance(kk, (Const, Num)) for kk, _ in base.items.values()):
                 raise RaiseSignal(ExcV(ExtV("builtins.KeyError"), [idx]), node)
             self.err(node, "symbolic key into concrete dict")
@@ -952,6 +960,22 @@ class OpsMixin(object):
 
 def _concat_all_doc():
     """''.join(xs) for a list built by (nested) loops is the concatenation of its pieces, loop by loop"""
+
+
+class _MappingView(object):
+    def __init__(self, obj, what):
+        self.obj, self.what = obj, what
+
+    def m___call__(self, I, args, kwargs):
+        if args or kwargs:
+            raise AnalysisError("%s() takes no arguments" % self.what)
+        keys = list(self.obj.iter_items(I))
+        if self.what == "keys":
+            return ListV(keys, "list")
+        vals = [self.obj.getitem(I, k) for k in keys]
+        if self.what == "values":
+            return ListV(vals, "list")
+        return ListV([ListV([k, v], "tuple") for k, v in zip(keys, vals)], "list")
 
 
 class StaticV(V):
